@@ -203,8 +203,9 @@ func (s *system) Apply(raw json.RawMessage) []seqx.Viol {
 		col = cols[idx]
 	}
 	req := s.request(user, verb, col)
-	got := cl.Canon(cl.Do(s.both.h, req), keep)
-	want := cl.Canon(cl.Do(s.alone[user].h, req), keep)
+	// an error text may quote the node's own directory (it differs between the worlds by construction)
+	got := strings.ReplaceAll(cl.Canon(cl.Do(s.both.h, req), keep), s.both.root, "<root>")
+	want := strings.ReplaceAll(cl.Canon(cl.Do(s.alone[user].h, req), keep), s.alone[user].root, "<root>")
 	s.checks++
 	s.out = append(s.out, got)
 	if got != want {
@@ -295,7 +296,11 @@ func (s *system) snapshotLists() string {
 			out = append(out, cl.Canon(cl.Do(s.alone[u].h, s.request(u, "searchtag", c)), keep))
 		}
 	}
-	return strings.Join(out, "\n")
+	all := strings.Join(out, "\n")
+	for _, u := range []string{"A", "B"} {
+		all = strings.ReplaceAll(all, s.alone[u].root, "<root>") // error texts quote the node's directory
+	}
+	return all
 }
 func (s *system) Outcome() string { return sl.Hash(strings.Join(s.out, "\n")) }
 func (s *system) Checks() int64   { return s.checks }
@@ -324,7 +329,7 @@ func alphabet() []any {
 }
 
 func master(cfg *harness.Config, rep *harness.Report) {
-	rep.Rule = "user-id pairs incl. ids that are prefixes of one another, ids whose concatenation with a collection name collides with another user's keys (user 'abc' vs user 'ab' + collection 'c12'), '.', '..', ids with space, percent, backslash and non-ASCII, ids that are images of one another under name normalisations (non-portable characters -> '_', case folding, percent-unescaping), ids that are glob patterns matching the other id ('team[1]' / 'team1', 'a?c' / 'abc', '*'); both users use the same collection names and point ids (plus, per pair, a collection named like the other user's id where that is a legal name; one pair addresses \"..%2F<other user>%2F<collection>\"). Breadth-first search over the product alphabet (per user: list, and per collection create / get / delete / insert 1 / insert 3 / update / search by id / filter search / flat vector search (an index that lives in the node-wide shared cache) / delete point) on one real node through the HTTP handler chain; in lock-step each user's sub-history runs alone on its own node; every response of the interleaved run must equal the solitary run's response (status + canonical body). States are de-duplicated on the file inventory of all three nodes plus every list / get / search answer"
+	rep.Rule = "user-id pairs incl. ids that are prefixes of one another, ids whose concatenation with a collection name collides with another user's keys (user 'abc' vs user 'ab' + collection 'c12'), '.', '..', ids with space, percent, backslash and non-ASCII, ids that are images of one another under name normalisations (non-portable characters -> '_', case folding, percent-unescaping), ids longer than 255 bytes that agree on their first 255 bytes (and a 255-byte id against its 256-byte extension), ids that are glob patterns matching the other id ('team[1]' / 'team1', 'a?c' / 'abc', '*'); both users use the same collection names and point ids (plus, per pair, a collection named like the other user's id where that is a legal name; one pair addresses \"..%2F<other user>%2F<collection>\"). Breadth-first search over the product alphabet (per user: list, and per collection create / get / delete / insert 1 / insert 3 / update / search by id / filter search / flat vector search (an index that lives in the node-wide shared cache) / delete point) on one real node through the HTTP handler chain; in lock-step each user's sub-history runs alone on its own node; every response of the interleaved run must equal the solitary run's response (status + canonical body). States are de-duplicated on the file inventory of all three nodes plus every list / get / search answer"
 	rep.Assumptions = []string{"user ids contain no '/' (the property's precondition)", "requests are issued one at a time: the node database serialises concurrent writers, so interleavings of whole requests are the schedule space at this level", "shard uuids are random and compared by rank"}
 	p := pool.New(pool.Options{CPUsPerWorker: 2, JobTimeout: 120 * time.Second})
 	if cfg.Replay != "" {
@@ -366,9 +371,16 @@ func master(cfg *harness.Config, rep *harness.Report) {
 		// reaches the handlers as "../bob/col" (one path segment, 10 characters: inside the id length limits)
 		{"alice", "bob", []string{"col", "..%2Fbob%2Fcol"}, []string{"col", "..%2Falice%2Fcol"}},
 	}
+	// ids longer than a file-name component may be (255 bytes on common file systems): whatever the node does
+	// with them - today every shard operation fails with ENAMETOOLONG - two ids that agree on their first 255
+	// bytes must not meet in one directory or key
+	long := strings.Repeat("u", 255)
+	pairs = append(pairs,
+		cfgT{long + strings.Repeat("A", 45), long + strings.Repeat("B", 45), []string{"col"}, []string{"col"}},
+		cfgT{long, long + "x", []string{"col"}, []string{"col"}})
 	var specs []seqx.Spec
 	for _, pr := range pairs {
-		specs = append(specs, seqx.Spec{Name: fmt.Sprintf("users %q and %q", pr.UserA, pr.UserB), Cfg: pr, Alphabet: alphabet(), Depth: depth, Dedup: true})
+		specs = append(specs, seqx.Spec{Name: fmt.Sprintf("users %.40q and %.40q (%d / %d bytes)", pr.UserA, pr.UserB, len(pr.UserA), len(pr.UserB)), Cfg: pr, Alphabet: alphabet(), Depth: depth, Dedup: true})
 	}
 	seqx.Explore(cfg, rep, p, specs)
 }
